@@ -25,19 +25,19 @@ Proof.
 Qed.
 
 Lemma data_alloc_cont_cap a t n r a' t' :
-  0 < n -> a_end (data a) <= a_end (meta a) -> EndInv a ->
+  0 < n -> 0 <= a_end (data a) <= a_end (meta a) -> EndInv a ->
   data_alloc_cont a t n = (r, a', t') -> EndInv a'.
 Proof.
-  intros Hn He Hcap. unfold data_alloc_cont.
+  intros Hn [Hd0 He] Hcap. unfold data_alloc_cont.
   destruct (data_avail a <? n); [intros [= <- <- <-]; exact Hcap|].
   destruct (fl_alloc_cont false (a_free (data a)) n) as [[reg|] f'].
   - intros [= <- <- <-]. exact Hcap.
-  - destruct ((maxPages a - a_end (data a)) mod 2 ^ 64 <? n) eqn:E2; [intros [= <- <- <-]; exact Hcap|].
+  - destruct ((0 <? maxPages a) && ((if a_end (data a) <? maxPages a then maxPages a - a_end (data a) else 0) <? n)) eqn:E2;
+      [intros [= <- <- <-]; exact Hcap|].
     intros [= <- <- <-]. unfold EndInv in *. cbn [data meta a_end a_free maxPages set_data set_meta].
-    destruct Hcap as [H0|Hle]; [left; exact H0|]. right.
-    assert (Hm: (maxPages a - a_end (data a)) mod 2 ^ 64 <= maxPages a - a_end (data a)) by (apply Z.mod_le; lia).
-    set (av := (maxPages a - a_end (data a)) mod 2 ^ 64) in *.
-    destruct (a_end (meta a) <? a_end (data a) + n) eqn:E3; lia.
+    destruct Hcap as [H0|Hle]; [left; exact H0|].
+    destruct (0 <? maxPages a) eqn:E0; [|left; lia]. right. cbn [andb] in E2.
+    destruct (a_end (data a) <? maxPages a) eqn:E4; destruct (a_end (meta a) <? a_end (data a) + n) eqn:E3; lia.
 Qed.
 
 Lemma transfer_all_ends : forall regs a t a' t',
@@ -50,16 +50,16 @@ Proof.
 Qed.
 
 Lemma try_grow_cap a t c ok a' t' :
-  0 <= c -> a_end (data a) <= a_end (meta a) -> EndInv a -> 0 <= avail (a_free (data a)) ->
+  0 <= c -> 0 <= a_end (data a) <= a_end (meta a) -> EndInv a -> 0 <= avail (a_free (data a)) ->
   try_grow a t c false = (ok, a', t') -> EndInv a'.
 Proof.
-  intros Hc He Hcap Hav. unfold try_grow.
+  intros Hc [Hd0 He] Hcap Hav. unfold try_grow.
   destruct (c =? 0) eqn:E0; [intros [= _ <- <-]; exact Hcap|].
   destruct (data_avail a <? c); [cbn [negb]; intros [= _ <- <-]; exact Hcap|].
   destruct (data_alloc_cont a t c) as [[r a1] t1] eqn:Ec.
   assert (Hc1: 0 < c) by lia.
   destruct r as [reg|].
-  - pose proof (data_alloc_cont_cap _ _ _ _ _ _ Hc1 He Hcap Ec) as H1.
+  - pose proof (data_alloc_cont_cap _ _ _ _ _ _ Hc1 (conj Hd0 He) Hcap Ec) as H1.
     destruct (transfer_to_meta a1 t1 reg) as [a2 t2] eqn:Et. intros [= _ <- <-].
     unfold transfer_to_meta in Et. injection Et as <- _. unfold EndInv in *. cbn. exact H1.
   - destruct (data_alloc_regions a t c) as [[[regs n] a3] t3] eqn:Ea.
@@ -179,7 +179,8 @@ Proof.
   { intros a1 t1 c b a2 t2 F1 R1 Hc E.
     assert (Hdav: 0 <= avail (a_free (data a1))).
     { destruct (fi_data _ _ _ F1) as [[W Hdv] _ _]. rewrite Hdv. eapply count_pages_nonneg; eauto. }
-    pose proof (try_grow_cap a1 t1 c b a2 t2 ltac:(lia) (proj2 (fi_ends _ _ _ F1)) (fr_cap _ _ _ R1) Hdav E) as Hcap.
+    assert (Hd0: 0 <= a_end (data a1)) by (pose proof (di_end _ (fi_data _ _ _ F1)); lia).
+    pose proof (try_grow_cap a1 t1 c b a2 t2 ltac:(lia) (conj Hd0 (proj2 (fi_ends _ _ _ F1))) (fr_cap _ _ _ R1) Hdav E) as Hcap.
     destruct (try_grow_spec a1 t1 c b a2 t2 (fi_data _ _ _ F1) (fi_mwf _ _ _ F1) (fi_mbelow _ _ _ F1)
                 (proj2 (fi_ends _ _ _ F1)) Hc E) as [[-> ->]|[regs G]]; [split; [assumption | split; [assumption | split; reflexivity]]|].
     split; [eapply grow_preserves; eauto|]. split; [eapply freed_grow; eauto|].
@@ -436,8 +437,19 @@ Proof.
   - pose proof (fr_cap _ _ _ R) as Cp. unfold EndInv in *. cbn. exact Cp.
 Qed.
 
-Lemma release_overflow_id l mx e : mx = 0 \/ e <= mx -> release_overflow l mx e = (l, 0).
+Lemma if_same {A} (b : bool) (x : A) : (if b then x else x) = x.
+Proof. destruct b; reflexivity. Qed.
+
+Lemma release_overflow_id_ l mx e : mx = 0 \/ e <= mx -> release_overflow l mx e = (l, 0).
 Proof. intros H. unfold release_overflow. replace ((mx =? 0) || (e <=? mx)) with true by (destruct H; lia). reflexivity. Qed.
+
+Lemma commit_ends_id nd nm mx dEnd mEnd : (mx = 0 \/ mEnd <= mx) -> (mx = 0 \/ dEnd <= mx) ->
+  commit_ends nd nm mx dEnd mEnd = (nm, nd, dEnd, mEnd, 0, 0).
+Proof.
+  intros Cp Cd. unfold commit_ends. rewrite (release_overflow_id_ _ mx mEnd Cp).
+  cbn [Z.ltb andb Z.compare]. rewrite (release_overflow_id_ _ mx dEnd Cd). rewrite if_same.
+  cbn [Z.ltb andb Z.compare]. repeat rewrite Z.sub_0_r. reflexivity.
+Qed.
 
 Lemma pred_add_count payload p r : p_count p <= p_count (pred_add payload p r).
 Proof. unfold pred_add. destruct (p_avail p <? region_enc_size r); cbn; lia. Qed.
@@ -485,26 +497,16 @@ Proof.
             forall c' a2' t2',
             (let newData := merge_region_lists (Dset a1) (ids_regions (t_freed (tdata t))) in
              let newMeta := merge_region_lists (Mset a1) (ids_regions (t_freed (tmeta t))) in
-             let dEnd := a_end (data a1) in
-             let mEnd := a_end (meta a1) in
-             let '(metaList, ovfFreed) := release_overflow newMeta (maxPages a1) mEnd in
-             let newEnd := mEnd - ovfFreed in
-             let dEnd1 := if (0 <? ovfFreed) && (dEnd <? mEnd) then newEnd else dEnd in
-             let mEnd1 := if 0 <? ovfFreed then newEnd else mEnd in
-             let '(dataList, dataFreedN) := release_overflow newData (maxPages a1) dEnd1 in
-             let dEnd2 := dEnd1 - dataFreedN in
-             let mEnd2 := if (0 <? dataFreedN) && (dEnd2 <=? mEnd1) then dEnd2 else mEnd1 in
+             let '(metaList, dataList, dEnd2, mEnd2, ovfFreed, dataFreedN) :=
+               commit_ends newData newMeta (maxPages a1) (a_end (data a1)) (a_end (meta a1)) in
              COk {| c_updated := true; c_allocRegions := regs; c_dataEnd := dEnd2; c_metaEnd := mEnd2;
                     c_metaList := metaList; c_dataList := dataList; c_dataFreed := dataFreedN; c_ovfFreed := ovfFreed |}
                  a1 (tx_stats t1 0 0 0 0 0 ovfFreed 0)) = COk c' a2' t2' -> InvQ (commit_apply a2' c')).
   { intros regs a1 t1 F1 R1 Q1 Q2 Hregs c' a2' t2'. cbv zeta.
     pose proof (fr_cap _ _ _ R1) as Cp. unfold EndInv in Cp.
-    rewrite (release_overflow_id _ (maxPages a1) (a_end (meta a1)) Cp).
-    cbn [Z.ltb andb Z.compare Z.sub]. replace (a_end (meta a1) - 0) with (a_end (meta a1)) by lia.
     assert (Cd: maxPages a1 = 0 \/ a_end (data a1) <= maxPages a1).
     { destruct Cp as [C|C]; [left; exact C | right; pose proof (proj2 (fi_ends _ _ _ F1)); lia]. }
-    rewrite (release_overflow_id _ (maxPages a1) (a_end (data a1)) Cd).
-    cbn [Z.ltb andb Z.compare]. replace (a_end (data a1) - 0) with (a_end (data a1)) by lia.
+    rewrite (commit_ends_id _ _ _ _ _ Cp Cd).
     intros [= <- <- _]. unfold commit_apply. cbn [c_updated c_metaEnd c_metaList c_dataEnd c_dataList c_ovfFreed c_allocRegions].
     rewrite <- Q1, <- Q2. apply (commit_tail a0 a1 t1 regs _ _ F1 R1 Hregs). }
   destruct (0 <? n) eqn:En.
